@@ -36,6 +36,19 @@ def plan(seed, subbatch):
         finer = [t for t in world.TIMEFRAMES if tf_s % tf_seconds(t) == 0 and base_s <= tf_seconds(t) < tf_s]
         if finer:
             route, level = "hexital_two_level", cfg.choice(finer)
+    siblings = []
+    if route in ("hexital_member", "hexital_two_level"):
+        fam = sub_rng(seed, "family")
+        if fam.random() < 0.35:
+            # sibling members on another spelling of the SAME span, on a span differing by whole days, or on
+            # an unrelated timeframe: each owns its manager; the manager under test sees the stream once
+            for _ in range(fam.randint(1, 2)):
+                s = fam.choice((world.equiv_spelling(tf), world.equiv_spelling(tf), world.day_shifted(tf, fam.randint(1, 2)),
+                                world.pick_timeframe(fam, base_s, 1.0, 20.0, allow_finer=False)))
+                if level and tf_seconds(s) % tf_seconds(level):
+                    continue    # below a collapsing level only multiples of the level are meaningful members
+                if s.upper() != tf.upper() and s.upper() != (level or "").upper() and s not in [x[0] for x in siblings]:
+                    siblings.append([s, fam.random() < 0.5])
     faults = {}
     burst = None
     p_empty = 0.0
@@ -83,7 +96,7 @@ def plan(seed, subbatch):
     ops += world.schedule(feed, rows[k:], sizes, extras)
     fired["preload_%s" % ("none" if k == 0 else "one" if k == 1 else "all" if k == len(rows) else "some")] += 1
     return {"format": 1, "property": ID, "seed": seed, "subbatch": subbatch,
-            "config": {"route": route, "tf": tf, "base_s": base_s, "level_tf": level,
+            "config": {"route": route, "tf": tf, "base_s": base_s, "level_tf": level, "siblings": siblings,
                        # timezone-aware streams (fixed offsets that do not divide the larger timeframes)
                        "utc_offset_min": cfg.choice((None, None, None, 60, 330, -210, 345))},
             "ops": ops, "fired": dict(fired)}
@@ -116,7 +129,9 @@ def _execute(trace):
                     rows = op.get("preload") or []
                     delivered.extend(rows)
                     subject, manager, view = run.call(len(rows), build_route, route, tf, rows, False, None, None, None,
-                                                      cfg.get("level_tf"))
+                                                      cfg.get("level_tf"), cfg.get("siblings"))
+                    if cfg.get("siblings"):
+                        run.stats["reach:hexital_with_sibling_timeframe_members"] += 1
                 elif subject is None:
                     continue
                 elif kind == "append":
@@ -177,3 +192,6 @@ def simplify(trace):
         t = dict(trace)
         t["config"] = dict(cfg, route="manager")
         yield t
+    if cfg.get("siblings"):
+        for k in range(len(cfg["siblings"])):
+            yield dict(trace, config=dict(cfg, siblings=cfg["siblings"][:k] + cfg["siblings"][k + 1:]))
